@@ -41,11 +41,15 @@ Colls == {"slice", "set", "map", "mapslice"}
 \* a set has no duplicate members; map keys are distinct: the driver concretises each position to a distinct member of its class
 TripCases == {[fam |-> "trip", coll |-> c, elems |-> e] : c \in Colls, e \in SeqsUpTo(Classes, MaxElems)}
 
+\* integer slices made of the extremes of their element type: what the integer-slice flag helpers print must parse back
+IntTripCases == {[fam |-> "inttrip", kind |-> k, elems |-> e] : k \in IntKinds \cup UintKinds,
+                   e \in SeqsUpTo({"min", "max", "zero", "one", "minusone"}, 2) \ {<<>>}}
+
 ScalarKinds == IntKinds \cup UintKinds \cup FloatKinds \cup {"bool", "string", "duration", "complex64", "complex128"}
 ScalarCases == {[fam |-> "scalar", kind |-> k, which |-> w] : k \in ScalarKinds, w \in {"min", "max", "zero", "one", "minusone", "tiny", "inf"}}
 
 VARIABLE c
-Init == c \in GoodRange \cup TripCases \cup ScalarCases
+Init == c \in GoodRange \cup TripCases \cup ScalarCases \cup IntTripCases
 Next == UNCHANGED c
 Spec == Init /\ [][Next]_c
 
